@@ -260,7 +260,14 @@ def gen_op(rng, ood):
 def gen_script(rng, tier):
     ood = rng.random() < 0.12            # out-of-domain probes: compared with the model, no spec demand
     n = rng.choice([1, 2, 3, 4, 6])
-    return {'ops': [gen_op(rng, ood) for _ in range(n)]}
+    ops = [gen_op(rng, ood) for _ in range(n)]
+    if rng.random() < 0.2:
+        # calls issued while the opening handshake is unanswered (they park inside the transport)
+        k = rng.choice([2, 2, 3, 4])
+        tagset = rng.sample(range(2, 40), k)
+        calls = [{'m': gen_call(rng, True, False), 'tag': t} for t in tagset]
+        ops = [{'op': 'wirepark', 'calls': calls}] + ops
+    return {'ops': ops}
 
 
 def exhaustive(tier, shard, shards):
@@ -392,6 +399,14 @@ class _FakeSock(object):
         self.buf = bytearray()
         self.evt = gevent.event.Event()
         self.closed = False
+        self.hold_ping = False
+        self.held = []
+
+    def release_ping(self):
+        self.hold_ping = False
+        for b in self.held:
+            self.feed(b)
+        del self.held[:]
 
     def open(self):
         pass
@@ -408,7 +423,11 @@ class _FakeSock(object):
         self.written.append(b)
         # a mux peer answers Tping (type 65) with Rping on the same tag
         if len(b) == 8 and b[4] == 65:
-            self.feed(struct.pack('!ib', 4, -65) + b[5:8])
+            rping = struct.pack('!ib', 4, -65) + b[5:8]
+            if self.hold_ping:
+                self.held.append(rping)       # the peer is slow to answer the opening handshake
+            else:
+                self.feed(rping)
 
     def feed(self, b):
         self.buf += b
@@ -444,16 +463,19 @@ class _Env(object):
             self.thrift = TS(Hello.Iface)
         return self.thrift
 
-    def build_stack(self):
+    def build_stack(self, hold_ping=False):
         import rt
         from scales.constants import SinkProperties
         from scales.thriftmux import sink as tmsink
         from scales.message import Deadline
         self.sock = _FakeSock()
+        self.sock.hold_ping = hold_ping
         self.transport = tmsink.SocketTransportSink(self.sock, 'svc')
         ar = self.transport.Open()
+        self.open_ar = ar
         rt.drain()
-        assert ar.ready() and ar.exception is None, 'transport did not open: %r' % (ar.exception,)
+        if not hold_ping:
+            assert ar.ready() and ar.exception is None, 'transport did not open: %r' % (ar.exception,)
         gp = {SinkProperties.ServiceInterface: None, SinkProperties.Label: 'svc'}
         self.ser_sink = tmsink.ThriftMuxMessageSerializerSink(_Provider(self.transport), None, gp)
         self.ser_sink._serializer._thrift_serializer = _StubThrift()
@@ -555,6 +577,66 @@ def note_entries(tags, lst):
         else:
             if k[:2] != [95, 95]:
                 tags.add('ood')
+
+
+def issue_call(env, op, m, cap, tags, parked, payload_of):
+    """one call through ClientIdInterceptorSink -> ThriftMuxMessageSerializerSink -> transport; `parked`: on its own
+    greenlet (the transport blocks it until the channel is open)"""
+    import gevent
+    import rt
+    from scales.message import MethodCallMessage
+    from scales.sink import ClientMessageSinkStack
+    payload, targ = payload_of(m['payload'])
+    ts = env.ser_sink._serializer
+    if targ is not None:
+        ts._thrift_serializer = env.real_thrift()
+        msg = MethodCallMessage(None, 'hi', (targ,), {})
+    else:
+        ts._thrift_serializer = _StubThrift()
+        ts._thrift_serializer.payload = payload
+        msg = MethodCallMessage(None, 'm', (), {})
+    assigns = []
+    for k, v in m['props']:
+        msg.properties[text_of(k)] = py_val(v)
+        assigns.append([k, v])
+    if 'deadline_s' in m:
+        msg.properties['__Deadline'] = m['deadline_s']
+        assigns.append([cps('__Deadline'), ['o']])
+    env.cid_sink._client_id = m.get('client_id', 'client')
+    assigns.append([cps(CLIENT_ID_KEY), ['t', cps(env.cid_sink._client_id)]])
+    del env.deadlines[:]
+    if not parked:
+        env.transport._tag_pool._set = {op.get('tag', 2)}
+    stack = ClientMessageSinkStack()
+    stack.Push(cap)
+    err = None
+    if parked:
+        box = []
+
+        def run():
+            try:
+                env.cid_sink.AsyncProcessRequest(stack, msg, None, {})
+            except Exception as ex:
+                box.append(errname(ex))
+        gevent.spawn(run)
+        rt.drain()
+        err = box[0] if box else None
+    else:
+        try:
+            env.cid_sink.AsyncProcessRequest(stack, msg, None, {})
+            rt.drain()
+        except Exception as ex:
+            err = errname(ex)
+    return msg, assigns, payload, err
+
+
+def call_hdrs(env):
+    hdrs = []
+    if env.deadlines:
+        d = env.deadlines[-1]
+        hdrs.append([cps(DEADLINE_KEY), ['d', int(d._ts), int(d._timeout)]])
+    return hdrs
+
 
 
 def run_script(script):
@@ -666,6 +748,49 @@ def run_script(script):
                     obs = ['err', errname(ex)]
                     tags.add('marshal-error')
                 steps.append([vfmt(['marshal', vm])[1:-1], vfmt(obs)])
+            elif kind == 'wirepark':
+                # calls issued while the transport's opening handshake (Tping) is still unanswered: each one
+                # runs through the serializer sink and parks inside the transport until the channel is open;
+                # then the peer answers and every parked call writes its frame
+                if env.stack_built:
+                    continue
+                env.build_stack(hold_ping=True)
+                for f in env.open_frames:
+                    steps.append([vfmt(['wire', 1, 'ping'])[1:-1], vfmt(f)])
+                sock, tr = env.sock, env.transport
+                del sock.written[:]
+                tags.add('parked-during-open')
+                tr._tag_pool._set = set(c.get('tag', 2 + i) for i, c in enumerate(op['calls']))
+                parked = []
+                for c in op['calls']:
+                    cap = _Capture()
+                    msg, assigns, payload, err = issue_call(env, c, c['m'], cap, tags, True, payload_of)
+                    parked.append((c, msg, assigns, payload, call_hdrs(env), cap, err))
+                env.sock.release_ping()
+                rt.drain()
+                frames = {}
+                for f in sock.written:
+                    if len(f) >= 8:
+                        frames.setdefault(int.from_bytes(f[5:8], 'big'), []).append(f)
+                for c, msg, assigns, payload, hdrs, cap, err in parked:
+                    note_entries(tags, assigns)
+                    note_entries(tags, hdrs)
+                    tag = msg.properties.get('__Tag', 0)
+                    vm = ('call', v_entries(assigns), v_entries(hdrs), payload)
+                    got = frames.get(tag, [])
+                    if err is not None:
+                        obs = ['err', err]
+                    elif cap.got:
+                        obs = ['err', errname(cap.got[0][1].error)] if cap.got[0][1] is not None else ['err', 'other']
+                        tags.add('marshal-error')
+                    elif len(got) == 1:
+                        obs = got[0]
+                    elif not got:
+                        obs = ['err', 'nowrite']
+                    else:
+                        obs = ['err', 'other-%d-writes' % len(got)]
+                    steps.append([vfmt(['wire', tag, vm])[1:-1], vfmt(obs)])
+                del sock.written[:]
             elif kind == 'wire':
                 if not env.stack_built:
                     env.build_stack()
@@ -711,37 +836,10 @@ def run_script(script):
                     if want_tag >= 65536:
                         tags.add('tag-high')
                 else:
-                    payload, targ = payload_of(m['payload'])
-                    ts = env.ser_sink._serializer
-                    if targ is not None:
-                        ts._thrift_serializer = env.real_thrift()
-                        msg = MethodCallMessage(None, 'hi', (targ,), {})
-                    else:
-                        ts._thrift_serializer = _StubThrift()
-                        ts._thrift_serializer.payload = payload
-                        msg = MethodCallMessage(None, 'm', (), {})
-                    assigns = []
-                    for k, v in m['props']:
-                        msg.properties[text_of(k)] = py_val(v)
-                        assigns.append([k, v])
-                    if 'deadline_s' in m:
-                        msg.properties['__Deadline'] = m['deadline_s']
-                        assigns.append([cps('__Deadline'), ['o']])
-                    env.cid_sink._client_id = m.get('client_id', 'client')
-                    assigns.append([cps(CLIENT_ID_KEY), ['t', cps(env.cid_sink._client_id)]])
-                    del env.deadlines[:]
-                    tr._tag_pool._set = {op.get('tag', 2)}
-                    stack = ClientMessageSinkStack()
-                    stack.Push(cap)
-                    try:
-                        env.cid_sink.AsyncProcessRequest(stack, msg, None, {})
-                        rt.drain()
-                    except Exception as ex:
-                        obs = ['err', errname(ex)]
-                    hdrs = []
-                    if env.deadlines:
-                        d = env.deadlines[-1]
-                        hdrs.append([cps(DEADLINE_KEY), ['d', int(d._ts), int(d._timeout)]])
+                    msg, assigns, payload, err = issue_call(env, op, m, cap, tags, False, payload_of)
+                    if err is not None:
+                        obs = ['err', err]
+                    hdrs = call_hdrs(env)
                     note_entries(tags, assigns)
                     note_entries(tags, hdrs)
                     tag = msg.properties.get('__Tag', op.get('tag', 2))
